@@ -10,6 +10,8 @@ pub mod c05;
 pub mod c06;
 pub mod c07;
 pub mod c08;
+pub mod c09;
+pub mod c10;
 pub mod c11;
 pub mod c15;
 pub mod c17;
@@ -32,6 +34,8 @@ pub fn registry() -> Vec<(&'static str, RunFn, &'static str, ReplayFn)> {
         ("C06", c06::run, c06::RULE, c06::replay),
         ("C07", c07::run, c07::RULE, c07::replay),
         ("C08", c08::run, c08::RULE, c08::replay),
+        ("C09", c09::run, c09::RULE, c09::replay),
+        ("C10", c10::run, c10::RULE, c10::replay),
         ("C11", c11::run, c11::RULE, c11::replay),
         ("C15", c15::run, c15::RULE, c15::replay),
         ("C17", c17::run, c17::RULE, c17::replay),
